@@ -39,6 +39,8 @@ class SchedWorld(World):
         self.sc = sc
         self.loop.wall_start = BASE + dt.timedelta(microseconds=sc.get("start_us", 0))  # type: ignore[attr-defined]
         self.horizon_us = sc.get("horizon_min", 3) * MIN_US
+        if sc.get("local_offset_min"):
+            self.loop.local_offset = dt.timedelta(minutes=sc["local_offset_min"])  # type: ignore[attr-defined]
         clock.install(_now_from_running_loop)
         self.activate()
         self.polls: List[Tuple[int, int, int]] = []  # (source, call number, t_us absolute from base)
